@@ -10,7 +10,7 @@ NOTES = ("Technique family: static analysis only. Every check re-extracts MIR fa
 STATUS = {
     "C03": dict(
         claimed=True,
-        technique="MIR census + provenance (single writer, record field origins, write census of Order.vol) + interprocedural must-flow of every fill volume into the cumulative counter (directly or through returned accumulators) + reset-body rule",
+        technique="MIR census + provenance (single writer, record field origins, argument origins at every trade-writer call context of the side-specialised whole-operation views, write census of Order.vol) + interprocedural must-flow of every fill volume into the cumulative counter (directly or through returned accumulators) + reset-body rule",
         text=("Decides on every path of the code: the trade log has one append-only writer; each record's fields originate from "
               "clock/passive side+price/min volume/aggressor+passive ids; both volumes decrease by the logged amount; the counter is "
               "updated after every fill and reset only by reset_trade_vol; Order.vol has no writer outside the fill and modify_order. "
@@ -18,14 +18,14 @@ STATUS = {
         note=TRUST + "Assumes valid histories (volumes >= 1, traded volume < 2^32)."),
     "C04": dict(
         claimed=True,
-        technique="order-entity typestate (abstract interpretation with branch refinement, context-sensitive summaries; components: status, queue membership, side, pending volume, kind, end/arrival time stamped from the clock) judged on API exit states + write census + effect analysis of guard-failing CFG slices",
+        technique="order-entity typestate (abstract interpretation with branch refinement, context-sensitive summaries; components: status, queue membership, side, pending volume, kind, end/arrival time stamped from the clock) run per side on whole-operation views of place/cancel/modify and judged on their exit states + write census + effect analysis of guard-failing CFG slices",
         text=("Sound abstract interpretation of the status/priority-map membership of every order entity through place/cancel/modify/"
               "loader and their callees: every status write checked against the predecessor table in all calling contexts, API entry->exit "
               "relation within the documented machine, terminal orders never written. end_time := clock exactly for orders that become terminal in the call and arr_time := clock exactly for placed orders (exit-state rule, wherever in the call tree the stamp is written),  immutability of side/trader/id/start_vol, dense ids, and empty effect of the guard-failing slices (redundant requests)."),
         note=TRUST + "Assumes ids refer to existing orders; Filled<=>vol==0 is itself checked (filled-iff-zero)."),
     "C02": dict(
         claimed=True,
-        technique="lock-step operand rules on the side structure + typestate accounting (pending-volume discipline) + sibling mirror of bid/ask wrappers + origin checks of views/level walk + must-pass-through (never crossed) + panic-site census with discharge table",
+        technique="lock-step operand rules on the side structure + typestate accounting (pending-volume discipline, run per side on whole-operation views) + sibling mirror of bid/ask wrappers + origin checks of views/level walk + must-pass-through of the opposite-side matching loop before every insertion (never crossed, side views) + panic-site census with discharge table",
         text=("Decides the structural premises from which 'views == recomputation from active orders' follows: the three side structures move "
               "together by the same operand; every volume change of a filed order is mirrored at its own level before the API returns; "
               "bid wrappers differ from ask wrappers only by the MAX-price inversion; level walks step touch -/+ i*tick; every Level1/Level2 "
@@ -34,7 +34,7 @@ STATUS = {
         note=TRUST + "Assumes valid histories (resting volume < 2^32, LEVELS*tick < 2^32, valid ids)."),
     "C01": dict(
         claimed=True,
-        technique="provenance of priority keys (K1/K3), sibling mirror of side wrappers (K2), loop-guard/exit-edge/termination analysis of the matching loops and condition census of every matching call (K4), fill-rule origins (K5), typestate exit states (K6)",
+        technique="rules on side-specialised whole-operation views of the API entries (private helpers spliced in, the order's side fixed, constant and joined-value branches normalised): provenance of priority keys (K1/K3), sibling mirror of side wrappers (K2), loop-condition/exit-edge/termination/progress analysis of every matching-loop context and must-pass-through of the opposite-side loop (K4), fill-rule origins (K5), typestate exit states (K6), finite case analysis of the modify dispatch (K7)",
         text=("Decides the premises K1-K6 from which agreement with a reference price-time engine follows by induction (given invariant I, itself "
               "proved by the typestate analysis, and BTreeMap ordering): key price = order price through a monotone side transform, key time = clock / "
               "strictly increasing stamp at the call, loops pop the head of the opposite side under `vol > 0 && limit admits best` and leave only when a "
@@ -43,7 +43,7 @@ STATUS = {
         note=TRUST + "Assumes valid histories (clock non-decreasing, prices strictly inside (0, 2^32-1))."),
     "C05": dict(
         claimed=True,
-        technique="provenance of the key's time component + idiom check of the stamp method (returns max(clock, counter), counter := result+1, single writer) + loader origin check",
+        technique="provenance of the key's time component at every key write of the side-specialised whole-operation views + idiom check of the stamp method (returns max(clock, counter), counter := result+1, single writer) + loader origin check (loader helpers spliced in)",
         text=("Decides the necessary structural condition for tie histories: the priority-map key is injective over queued orders and ordered by "
               "queueing sequence, because every queue time is a strictly increasing stamp that feeds exactly one key, the map key contains it, and the "
               "loader restores the counter above all stored queue times. Raw clock / order id are rejected as uniqueness sources. Behaviour of the other "
@@ -51,7 +51,7 @@ STATUS = {
         note=TRUST + "Assumes queue times stay below 2^64-1."),
     "C06": dict(
         claimed=True,
-        technique="finite case analysis over (status, Option shapes of new_price/new_vol, v < current volume, price on grid) with branch conditions evaluated per case on modify_order's CFG + effect summaries (priority map untouched in place) + typestate of the replacement path + write census",
+        technique="finite case analysis over (status, Option shapes of new_price/new_vol, v < current volume, price on grid) with branch conditions evaluated per case on the whole-operation view of modify_order (what runs: side-index operations, field writes and their values per case) + effect summaries (priority map untouched in place) + typestate of the replacement path + key provenance + write census",
         text=("Decides on modify_order's CFG: in-place iff (None, Some(v)) with v strictly below the current volume, that path never writes a priority "
               "map and only the volume; (None, None) reaches no effectful call; the other dispatches pass exactly requested/kept price and volume to one "
               "replacement routine that removes, assigns, re-matches under the trading guard and re-queues iff not Filled under a fresh key; identity fields "
@@ -66,7 +66,7 @@ STATUS = {
         note=TRUST + "tick_size > 0 is asserted by the constructor."),
     "C13": dict(
         claimed=True,
-        technique="call-chain guard dominance (every chain to the trade writer passes a trading==true controlled call), effect analysis of the trading-off slices, writer census of the flag, fan-out shape rules",
+        technique="guard dominance on whole-operation views (every trade-writer call and every matching loop of every public entry is control-dependent on trading == true; the writer is called only inside matching loops), effect analysis of the `trading == false` branch slices of place_order per side and kind, must-pass-through (never crossed), writer census of the flag, fan-out shape rules",
         text=("Decides: no call chain from a public book entry reaches the trade writer without a call site controlled by trading == true; with the flag "
               "off market placement only marks Rejected + end_time; insertions do not depend on the flag; the flag has exactly two constant writers that "
               "write nothing else, no copy exists, and the Market/Env/MarketEnv toggles reach every book and the same-named toggle."),
@@ -119,7 +119,7 @@ STATUS = {
         note=TRUST + "kdam (progress bar) is exempt: display only."),
     "C14": dict(
         claimed=True,
-        technique="forwarding conformance: index provenance (asset parameter / closure index), name-role agreement of forwarded arguments, same-named callee, effect summaries confined to order_books[asset], fan-out loop shape",
+        technique="forwarding conformance: index provenance (asset parameter / closure index), name-role agreement of forwarded arguments, same-named callee, effect summaries confined to order_books[asset], fan-out loop shape; the multi-asset step is held to the single-asset batch / snapshot / recording rule sets (C08, C10, C11 instantiated for MarketEnv)",
         text=("Decides that Market and MarketEnv are literal forwarders: each per-asset method reaches exactly order_books[its asset] with id order_id.1 and "
               "name-bound arguments, all-asset queries index only with the closure index and call the matching singular query, clock/toggles/reset reach "
               "every book, MarketEnv getters index with their asset parameter. Equality with stand-alone books then follows from the book-level properties."),
